@@ -504,6 +504,46 @@ func runC07(w *mon.W) {
 		w.End()
 	}
 
+	// ---- ... and the smallest share above a tenth at every total 9, 19, .. 5999: AAG holds (total+1)/10 of total,
+	// which is above 10% by less than a hundredth of a percent from total 1009 on; the codon is eligible and
+	// 400 draws that never show it have probability 0.9^400 < 10^-18
+	for blk := 0; blk < 60; blk++ {
+		id := fmt.Sprintf("over-tenth-%d", blk)
+		idx++
+		if !w.Want(id, idx) {
+			continue
+		}
+		w.Begin(id, fmt.Sprintf("totals %d..%d step 10, AAG just above 10%%", blk*100+9, blk*100+99))
+		for total := blk*100 + 9; total <= blk*100+99; total += 10 {
+			tbl := deepTable(1)
+			var dna string
+			var err error
+			wt := (total + 1) / 10
+			seq := strings.Repeat("AAG", wt) + strings.Repeat("AAA", total-wt)
+			p := mon.Try(func() {
+				tbl = tbl.OptimizeTable(seq)
+				dna, err = codon.Optimize(strings.Repeat("K", 400), tbl)
+			})
+			w.Eval(true, mon.Hash64("over-tenth", fmt.Sprint(total)))
+			w.Add("totals_with_a_codon_just_above_a_tenth", 1)
+			if p != "" || err != nil || len(dna) != 1200 {
+				w.Violation(id, fmt.Sprintf("Optimize of 400 x K on table 1 re-weighted with AAG %d, AAA %d: %s %v (length %d)", wt, total-wt, p, err, len(dna)), map[string]any{"total": total})
+				continue
+			}
+			if n := strings.Count(dna, "AAG"); total > 9 && func() bool {
+				for i := 0; i+3 <= len(dna); i += 3 {
+					if dna[i:i+3] == "AAG" {
+						return false
+					}
+				}
+				return true
+			}() {
+				w.Violation(id, fmt.Sprintf("400 x K on table 1 re-weighted with AAG %d, AAA %d: AAG has a share above 10%% (%d*10 > %d) and was never emitted (%d matches of AAG out of frame)", wt, total-wt, wt, total, n), map[string]any{"total": total})
+			}
+		}
+		w.End()
+	}
+
 	// ---- proportionality by position: the first and the last residue of a protein of the usual form M...* are
 	// drawn like any other (default tables: every synonym of M, and every stop codon, equally often)
 	pdraws := w.Pick(20000, 100000)
